@@ -389,6 +389,70 @@ def rule_full_dictionary(rep, repo, unit, loc):
                 instance="full dictionary/%s/%s" % (name, lbl))
 
 
+# what the stock Keras layer the class replaces declares as its output shape
+def _stock_output_shape(name, shape, units):
+  if name == "QDense":
+    return tuple(shape[:-1]) + (units,)
+  return tuple(shape)          # activations, batch normalisation
+
+
+def rule_output_shapes(rep, repo, rule="R10"):
+  """The converted model has the output shapes of the source model: every
+  quantized layer class that overrides compute_output_shape (under Keras 3
+  the override IS the layer's symbolic output shape) is built by its own
+  constructor and asked for input shapes of rank 2, 3 and 4, with an
+  unknown and with a fixed batch size; the answer has to be the output
+  shape of the stock layer it replaces (Dense: the last axis becomes
+  `units`, every other axis is kept; activation / batch normalisation: the
+  input shape)."""
+  from .c13 import layer_pe, exported_classes
+  from ..pe import ClassRef
+  n = 0
+  for name, ci in sorted(exported_classes(repo).items()):
+    if "compute_output_shape" not in ci.methods:
+      continue
+    fn = ci.methods["compute_output_shape"]
+    unit = "%s::%s.compute_output_shape" % (ci.module.relpath, name)
+    rep.unit(unit)
+    loc = ci.module.loc(fn)
+    if name not in ("QDense", "QActivation", "QAdaptiveActivation",
+                    "QBatchNormalization"):
+      rep.fail(rule, unit, "output-shape-override-without-reference",
+               "%s overrides compute_output_shape and the checker has no "
+               "stock-layer reference for it" % name, loc=loc)
+      continue
+    params = [p for p, _ in ci.init_params()[0]]
+    kw = {}
+    if "units" in params:
+      kw["units"] = 7
+    if "activation" in params and name != "QDense":
+      kw["activation"] = "quantized_relu(4)"
+    if name == "QAdaptiveActivation":
+      kw.update(activation="quantized_relu", total_bits=4)
+    pe = layer_pe(repo, ci, name)
+    try:
+      layer = pe.call(ClassRef(ci), [], dict(kw))
+    except (PyRaise, Unsupported) as e:
+      rep.extra.setdefault("output_shape_not_interpretable", {})[name] = \
+          str(e)[:100]
+      continue
+    for shape in ((None, 5), (None, 8, 5), (None, 4, 4, 5), (3, 5),
+                  (3, 8, 5)):
+      want = _stock_output_shape(name, shape, 7)
+      try:
+        got = pe.call(pe.getattr(layer, "compute_output_shape"),
+                      [tuple(shape)], {})
+        got = tuple(got) if isinstance(got, (list, tuple)) else got
+      except (PyRaise, Unsupported) as e:
+        got = "raises %s" % e
+      n += 1
+      rep.check(got == want, rule, unit, "output-shape",
+                "%s.compute_output_shape(%s) = %s; the stock layer it "
+                "replaces gives %s" % (name, shape, got, want), loc=loc,
+                instance="%s%s" % (name, shape))
+  return n
+
+
 def run(rep, repo, tier):
   um = repo.module(UM)
   unit = "%s::model_quantize" % um.relpath
@@ -694,6 +758,8 @@ def run(rep, repo, tier):
   except PyRaise as e:
     rep.fail("R8", unit, "weight-transfer-raises", "raises %s" % e, loc=loc)
   rule_activation_names(rep, repo)
+  rule_output_shapes(rep, repo)
+  rep.require_instances("R10", 20)
   rep.require_instances("R8", 50)
   rep.require_instances("R1", 10)
   rep.require_instances("R4", 10)
